@@ -17,7 +17,7 @@ from ..common import seed_int, case_hash
 
 
 def gen_description(rng, idx):
-    cluster = worldgen.gen_cluster(rng, multi_instance=0.4)
+    cluster = worldgen.gen_cluster(rng, multi_instance=0.4, repeat_anonymous=0.3)
     graphs, profiles = [], []
     for g in range(rng.randint(1, 3)):
         shape, nodes, blocks = worldgen.gen_graph(rng, f"G{g}", max_nodes=8)
@@ -184,6 +184,14 @@ class LoaderCheck:
                         self.bad("cluster_resource", f"{w.name}: {(n, i, q)} vs {rd}", idx)
                 if len(got) != len(wd["resources"]):
                     self.bad("cluster_resource", f"{w.name}: {len(got)} resources vs {len(wd['resources'])}", idx)
+                if len({rd["name"] for rd in wd["resources"]}) < len(wd["resources"]):
+                    self.bump("workers_with_repeated_resource_entries")
+                for n in {rd["name"].split(":")[0] for rd in wd["resources"]}:
+                    want = sum(rd["quantity"] for rd in wd["resources"] if rd["name"].split(":")[0] == n)
+                    import workload as _wl
+                    have = w.resources.get_total_quantity(_wl.Resource(name=n, _id="any"))
+                    if have != want:
+                        self.bad("cluster_resource_total", f"{w.name}: total {n} = {have}, described {want}", idx)
                 ids = [(n, i) for n, i, _ in got]
                 if len(set(ids)) != len(ids):
                     self.bad("cluster_resource_ids", f"{w.name}: duplicate ids {ids}", idx)
@@ -434,6 +442,8 @@ class _Check(LoaderCheck):
             inconclusive.append("fewer than 50 closed-loop runs ended")
         if tot.get("deadlines_compared", 0) < 1000 or tot.get("slo_compared", 0) < 1000:
             inconclusive.append("too few deadlines / SLOs compared")
+        if tot.get("workers_compared", 0) < 1000 or tot.get("workers_with_repeated_resource_entries", 0) < 200:
+            inconclusive.append("too few workers (or workers with repeated resource entries) compared")
         cov = {"evaluations": tot.get("descriptions", 0) + tot.get("closed_loop_runs", 0), "distinct_nontrivial": len(nt),
                "rule": "generated workload+cluster descriptions (1-3 graphs of 1-12 jobs incl. conditionals, SLOs, 1-3 strategies with "
                        "'any'/specific ids, loading strategies, all 5 release policies, deadline variances) written as YAML or JSON and "
